@@ -254,6 +254,13 @@ def measureQubit (q : Int) (p : P) : EM Value := do
   setLastMeasurement q bit
   pure (mkBit bit)
 
+/-- `reset q;` as every access path performs it: the handle must exist, the simulator resets (clearing its own
+flag), the evaluator's flag and remembered outcome are cleared -/
+def resetQubit (q : Int) (p : P) : EM Unit := do
+  ensureQubitExists q p
+  simReset q
+  unmarkMeasured q
+
 /-! ### operators -/
 
 def isObjectLike (v : Value) : Bool := v.type == .Object || v.type == .ClassRef
@@ -959,9 +966,7 @@ def exec (fuel : Nat) (s : Stmt) : EM Unit :=
       echoLine (valueToString val)
     | .reset t p => do
       let q ← eval fuel t
-      ensureQubitExists q.qubit p
-      simReset q.qubit
-      unmarkMeasured q.qubit
+      resetQubit q.qubit p
     | .measure q p => do
       let qv ← eval fuel q
       if qv.type == .QubitArray then measureAll p qv.qubitArray
